@@ -112,7 +112,7 @@ Section RangeWriter.
 
   (** the literal Spyne writes for a facet value denotes that value in the published base type *)
   Definition lex_rt (b : lbase) (g : sval) : Prop :=
-    exists g', xs_value olex (xbase_of b) (pr_text b g) = Some g' /\ sval_equiv g' g.
+    exists g', xs_value olex (xbase_of b) (schema_text b g) = Some g' /\ sval_equiv g' g.
 
   Lemma facet_piece b f s v v' a t :
     In (a, t) [(A_gt, T_minExclusive); (A_ge, T_minInclusive); (A_lt, T_maxExclusive); (A_le, T_maxInclusive)] ->
@@ -158,7 +158,7 @@ Section RangeWriter2.
   Lemma enum_exists b v v' l :
     (forall g, In g l -> lex_rt olex b g) -> sval_equiv v' v ->
     existsb (fun f : ftag * text => match xs_value olex (xbase_of b) (snd f) with Some w => sval_eqb v' w | None => false end)
-            (map (fun w => (T_enumeration, pr_text b w)) l)
+            (map (fun w => (T_enumeration, schema_text b w)) l)
     = existsb (sval_eqb v) l.
   Proof.
     intros Hrt (_ & _ & _ & E4). induction l as [|x r IH]; [reflexivity|].
@@ -168,7 +168,7 @@ Section RangeWriter2.
 
   Lemma enum_values_ok b f v v' :
     (forall g, In g (fa_values f) -> lex_rt olex b g) -> sval_equiv v' v ->
-    enum_ok olex (xbase_of b) v' (map (fun w => (T_enumeration, pr_text b w)) (fa_values f)) = values_ok f v.
+    enum_ok olex (xbase_of b) v' (map (fun w => (T_enumeration, schema_text b w)) (fa_values f)) = values_ok f v.
   Proof.
     intros Hrt Heq. unfold values_ok, enum_ok.
     destruct (fa_values f) as [|w ws] eqn:Ev; [reflexivity|].
@@ -349,7 +349,7 @@ Section IntLeaf.
     unfold in_space. destruct g as [z| | | |]; try discriminate. cbn [kind_ok andb].
     destruct (ibounds k) as [l h] eqn:Eb. intros Hin.
     exists (SInt z). split; [|apply sval_equiv_refl].
-    cbn [xbase_of]. rewrite Eb. cbn [pr_text pr_leaf]. unfold integer_to_unicode.
+    cbn [xbase_of]. rewrite Eb. cbn [schema_text pr_text pr_leaf]. unfold integer_to_unicode.
     rewrite xs_value_int_canon, Hin. reflexivity.
   Qed.
 
@@ -540,7 +540,7 @@ Section StrLeaf.
     destruct g as [|t| | |]; try discriminate. intros H. exists (SText t). split; [|apply sval_equiv_refl].
     destruct uri; [|reflexivity].
     unfold in_space in H. cbn [kind_ok andb] in H. apply text_eqb_true_eq in H.
-    cbn [xbase_of pr_text pr_leaf xs_value]. rewrite H. reflexivity.
+    cbn [xbase_of schema_text pr_text pr_leaf xs_value]. rewrite H. reflexivity.
   Qed.
 
   (** the published simple type of a customised string class accepts a text iff it satisfies
